@@ -23,6 +23,9 @@ type vfC15Case struct {
 	Frames  []vfDetFrame `json:"frames"`
 	Preview int          `json:"preview_secs"` // preview-secs for the processor run (fps 1 => preview frames = preview secs)
 	Trigger int          `json:"trigger"`
+	// ordinals of the motion sink's StartRecording / StopRecording calls that fail in the processor run
+	StartFail []int `json:"start_fail,omitempty"`
+	StopFail  []int `json:"stop_fail,omitempty"`
 }
 
 func vfGenC15(t *rapid.T) vfC15Case {
@@ -67,6 +70,13 @@ func vfGenC15(t *rapid.T) vfC15Case {
 				v = 65535
 			}
 			c.Frames[i].Mut = append(c.Frames[i].Mut, vfMut{P: p, V: uint16(v)})
+		}
+	}
+	if rapid.IntRange(0, 2).Draw(t, "faults") == 0 {
+		c.StartFail = vfGenOrdinals(t, "startfail", 3)
+		c.StopFail = vfGenOrdinals(t, "stopfail", 3)
+		if rapid.Bool().Draw(t, "allstopsfail") {
+			c.StopFail = []int{0, 1, 2, 3, 4, 5, 6, 7, 8, 9, 10, 11, 12, 13, 14, 15}
 		}
 	}
 	return c
@@ -206,10 +216,10 @@ func vfRunC15(c vfC15Case) *kit.Result {
 	cam := vfCam{c.Cfg.W, c.Cfg.H, 1}
 	tr := &vfTrace{motion: map[int]bool{}}
 	w, _ := window.New("10:00", "10:00", 0, 0)
-	rc := &recorder.RecorderConfig{MinSecs: 1, MaxSecs: 3, PreviewSecs: c.Preview, Window: *w}
+	rc := &recorder.RecorderConfig{MinSecs: 2, MaxSecs: 6, PreviewSecs: c.Preview, Window: *w}
 	mc := c.Cfg.motionConf()
 	mc.TriggerFrames = c.Trigger
-	sink := vfNewSink(tr, 'm', nil, nil, nil, nil)
+	sink := vfNewSink(tr, 'm', nil, c.StartFail, nil, c.StopFail)
 	mp := NewMotionProcessor(vfParse, &mc, rc, &config.Location{}, &vfListener{tr}, sink, cam, (*vfSink)(nil), vfNewSink(tr, 't', nil, nil, nil, nil))
 	starts := 0
 	sink.bgHook = func(bg *cptvframe.Frame, thr uint16) {
@@ -270,6 +280,6 @@ func vfRunC15(c vfC15Case) *kit.Result {
 
 func TestVF_C15(t *testing.T) {
 	kit.Drive(t, "C15", "TestVF_C15",
-		"generated: dynamic-threshold streams with slowly drifting scenes, cooling/warming pixels, FFC periods and resets; temp-thresh-min / max unset or set in all four combinations with the scene mean below, inside and above the range; preview frames 0-6, edge 0-2. Oracle (after every clear frame, read in-package from the detector alone and inside a MotionProcessor): background <= frame on every interior pixel; every border pixel equals its nearest interior pixel; background interior == frame on the first clear frame after start-up, a reset or an FFC period; if the background changed and more than preview*fps background frames were seen the threshold equals floor(clamp(mean of interior background, [min,max])) +-1, otherwise it is unchanged or equals that value; every StartRecording receives the background and threshold in force. Non-trivial: >=3 recomputations with the clamp active at least once, or a re-seed after an FFC/reset.",
+		"generated: dynamic-threshold streams with slowly drifting scenes, cooling/warming pixels, FFC periods and resets, optionally with the motion sink's start/stop failing; temp-thresh-min / max unset or set in all four combinations with the scene mean below, inside and above the range; preview frames 0-6, edge 0-2. Oracle (after every clear frame, read in-package from the detector alone and inside a MotionProcessor): background <= frame on every interior pixel; every border pixel equals its nearest interior pixel; background interior == frame on the first clear frame after start-up, a reset or an FFC period; if the background changed and more than preview*fps background frames were seen the threshold equals floor(clamp(mean of interior background, [min,max])) +-1, otherwise it is unchanged or equals that value; every StartRecording receives the background and threshold in force. Non-trivial: >=3 recomputations with the clamp active at least once, or a re-seed after an FFC/reset.",
 		vfGenC15, vfRunC15)
 }
